@@ -35,6 +35,15 @@ n_b, n_o, n_t = Poly.sym("n_b"), Poly.sym("n_o"), Poly.sym("n_t")
 
 def simplify_divmod(p):
     """x div m * m + x mod m  ->  x   (applied until nothing changes; coefficients may be polynomials)"""
+    # python's floor division of a loop / array index (non-negative by construction) by a positive size is the plain quotient
+    ren = {}
+    for a in p.atoms():
+        if a[0] == "app" and a[1] == "floordiv" and len(a) == 4 and isinstance(a[2], Poly) and len(a[2].atoms()) == 1 and \
+                a[2] == Poly.atom(next(iter(a[2].atoms()))) and \
+                all((x[0] in ("idx", "sym") and "#" in str(x[1])) or (x[0] == "app" and x[1] == "at") for x in a[2].atoms()):
+            ren[a] = Poly.app("div", a[2], a[3])
+    if ren:
+        p = p.subs(ren)
     changed = True
     while changed:
         changed = False
